@@ -1,12 +1,16 @@
-"""C20 — Compound terms unify, constrain, reify structurally (Engine M; tuple compounds)."""
+"""C20 — Compound terms unify, constrain, reify structurally (Engine M; tuple compounds and #[compound] structs)."""
 import progprop
 import tmpl
 from progprop import replay
 
 
 def run(tier):
-    return progprop.run('C20', tier, tmpl.compounds(), 'c20',
-                        'Programs over the crate\'s tuple compound `(a, b)` (unification of fields, compound versus list / literal, occurs check through fields, '
-                        'disequality on compounds, deep walk* of both fields at reification, compounds nested in lists and in compounds) are executed symbolically '
-                        'from MIR and compared with the reference, in which a compound is a tagged constructor with pairwise-unified fields (i.e. the tagged-list reading).',
-                        extra_assume=['only the tuple compound (LTerm, LTerm) and compounds reached through it are covered; #[compound] structs and Option fields are outside this check (the C01 check covers unify_rec_compound on tuple compounds with lazily symbolic fields)'])
+    return progprop.run('C20', tier, tmpl.compounds() + tmpl.compound_structs(), 'c20',
+                        'Programs over the crate\'s tuple compound `(a, b)` and over #[compound] structs (tuple-like structs with LTerm fields, a struct with an '
+                        'Option<Leaf> field, a recursive struct with typed fields, a named struct reached through match patterns, typed variables): unification of '
+                        'fields, compound versus list / literal / compound of another type, Some versus None, occurs check through fields, disequality on compounds, '
+                        'deep walk* at reification, FD labeling of fields, compounds nested in lists and in compounds.  The struct definitions are expanded by the real '
+                        '#[compound] attribute macro on every run; everything is executed symbolically from MIR and compared with the reference, in which a compound '
+                        'is a tagged constructor with pairwise-unified fields (the tagged-list twin).',
+                        extra_assume=['struct definitions: Leaf(LTerm), Wrap(LTerm), Pt(LTerm, LTerm), Node(LTerm, Option<Leaf>), Named { a: LTerm, b: Leaf }, Tree(LTerm, Tree, Tree); '
+                                      'named-struct VALUES can only be written as match patterns (the constructor syntax does not parse inside == in this version of the macros)'])
